@@ -26,14 +26,78 @@ theorem C16_int (w : Nat) (rs : List (Int × Int)) (s : Bytes) :
   | none => simp
   | some v => simp [and_assoc]
 
+theorem natOf_zeros : ∀ (r : Bytes) (a : Nat), r.all (· = 48) = true → r.foldl (fun a c => a * 10 + (c - 48)) a = a * 10 ^ r.length
+  | [], a, _ => by simp
+  | c :: r, a, h => by
+    simp only [List.all_cons, Bool.and_eq_true, decide_eq_true_eq] at h
+    simp only [List.foldl_cons, h.1, Nat.sub_self, Nat.add_zero, List.length_cons]
+    rw [natOf_zeros r (a * 10) h.2, Nat.pow_succ, Nat.mul_assoc, Nat.mul_comm 10]
+
+theorem foldl_ge : ∀ (r : Bytes) (a : Nat), a ≤ r.foldl (fun a c => a * 10 + (c - 48)) a
+  | [], a => by simp
+  | c :: r, a => by
+    simp only [List.foldl_cons]
+    exact Nat.le_trans (by omega) (foldl_ge r (a * 10 + (c - 48)))
+
+/-- digits that denote zero are zeros -/
+theorem natOf_eq_zero : ∀ (r : Bytes), r.all YC.isDig = true → natOf r = 0 → r.all (· = 48) = true
+  | [], _, _ => rfl
+  | c :: r, hd, h => by
+    simp only [List.all_cons, Bool.and_eq_true] at hd
+    simp only [natOf, List.foldl_cons, Nat.zero_mul, Nat.zero_add] at h
+    have hge := foldl_ge r (c - 48)
+    have hc : c - 48 = 0 := by omega
+    have hc48 : c = 48 := by
+      have := hd.1; simp only [YC.isDig, Bool.and_eq_true, decide_eq_true_eq] at this; omega
+    rw [hc] at h
+    simp only [List.all_cons, hc48, decide_true, Bool.true_and]
+    exact natOf_eq_zero r hd.2 h
+
+/-- **C16 (unsigned).** accepted iff the text is an integer — optional sign, digits — whose value lies in
+    [0, 2^w − 1] and in the range set: "+5" and "-0" are such texts, "-1" is not -/
 theorem C16_uint (w : Nat) (rs : List (Int × Int)) (s : Bytes) :
     validate (.uint w rs) s = true ↔
-      allDigits (stripPlus s) = true ∧ Int.ofNat (natOf (stripPlus s)) ≤ 2 ^ w - 1 ∧
-        inRanges rs (Int.ofNat (natOf (stripPlus s))) = true := by
+      ∃ v, parseSigned s = some v ∧ 0 ≤ v ∧ v ≤ 2 ^ w - 1 ∧ inRanges rs v = true := by
   simp only [validate]
-  by_cases h : allDigits (stripPlus s) = true
-  · simp [h]
-  · simp [h]
+  cases s with
+  | nil => simp [uintDigits, parseSigned, allDigits]
+  | cons c r =>
+    by_cases h43 : c = 43
+    · subst h43; simp only [uintDigits, parseSigned]
+      by_cases h : allDigits r = true <;> simp [h]
+    · by_cases h45 : c = 45
+      · subst h45
+        simp only [uintDigits, parseSigned]
+        by_cases hz : (!r.isEmpty && r.all (· = 48)) = true
+        · simp only [hz, ↓reduceIte]
+          simp only [Bool.and_eq_true, Bool.not_eq_true', List.isEmpty_eq_false_iff] at hz
+          have hd : allDigits r = true := by
+            simp only [allDigits, Bool.and_eq_true, Bool.not_eq_true', List.isEmpty_eq_false_iff]
+            refine ⟨hz.1, ?_⟩
+            rw [List.all_eq_true] at hz ⊢
+            intro x hx; have := hz.2 x hx; simp only [decide_eq_true_eq] at this; subst this; decide
+          have h0 : natOf r = 0 := by
+            have := natOf_zeros r 0 hz.2; simpa [natOf] using this
+          simp [hd, h0]
+        · have hnd : allDigits (45 :: r) = false := by simp [allDigits, YC.isDig]
+          simp only [hz, Bool.false_eq_true, ↓reduceIte, hnd]
+          simp only [false_iff, not_exists, not_and]
+          intro v hv h0
+          by_cases hd : allDigits r = true
+          · simp only [hd, ↓reduceIte, Option.some.injEq] at hv
+            subst hv
+            have hn : natOf r = 0 := by
+              simp only [Int.ofNat_eq_natCast] at h0; omega
+            simp only [allDigits, Bool.and_eq_true, Bool.not_eq_true', List.isEmpty_eq_false_iff] at hd
+            have := natOf_eq_zero r hd.2 hn
+            simp [hd.1, this] at hz
+          · simp [hd] at hv
+      · have hu : uintDigits (c :: r) = c :: r := by
+          unfold uintDigits; split <;> simp_all
+        have hp : parseSigned (c :: r) = if allDigits (c :: r) then some (Int.ofNat (natOf (c :: r))) else none := by
+          unfold parseSigned; split <;> simp_all
+        rw [hu, hp]
+        by_cases h : allDigits (c :: r) = true <;> simp [h]
 
 theorem C16_bool (s : Bytes) : validate .bool s = true ↔ (s = msg "true" ∨ s = msg "false") := by
   simp [validate]
